@@ -291,6 +291,12 @@ def run(chk, replay=None):
     hists = printed_json(r, "HISTORY")
     if not hists:
         raise Infra("no history generated")
+    # a fixed prologue (the replay runs in a fresh process): pointwise calls, then every transform of every small dimension, then the same
+    # pointwise calls again: whatever a transform leaves behind in the process (tables, floating-point environment) must not show
+    pw = [{"f": f, "m": 3, "div": 0, "ovh": 0} for f in ("reim_fftvec_mul_simple", "reim_fftvec_addmul_simple", "cplx_fftvec_mul_simple",
+                                                          "cplx_fftvec_addmul_simple", "reim4_fftvec_mul_simple", "reim4_fftvec_addmul_simple")]
+    tr = [{"f": f, "m": mm, "div": 0, "ovh": 0} for mm in range(0, 7) for f in ("reim_fft_simple", "reim_ifft_simple", "cplx_fft_simple", "cplx_ifft_simple")]
+    hists.insert(0, pw + tr + pw)
     # directed histories of the two functions whose thread-local table is keyed by (m, divisor, bound / overhead): a long random walk over
     # a small key space visits (almost) every ordered triple of keys, i.e. every way a stale key component can be left behind
     rngd = random.Random(chk.seed * 5 + 1)
